@@ -594,6 +594,12 @@ def check_history(case):
             break
         if not (-360.0 < a._deg < 360.0):
             out.append("after history %r the value %r is outside (-360, 360)" % (done, a._deg))
+        # the radian / hour views of the object itself, judged absolutely (state shared by all Angle objects and
+        # keyed on the value would mislead the fresh object in the same way)
+        for site, msg, dev in observe_state(a):
+            out.append("after history %r on Angle(%r): %s" % (done, case["start"], msg))
+        if out:
+            break
     return out
 
 
